@@ -19,6 +19,34 @@ CHECKS = {
         "Trusted: CPython, numpy/torch float64 kernels. Softplus threshold approximation budgeted (3e-9 per hidden unit).",
         "DESIGN.md 3 C01",
     ),
+    "C02": (
+        "runtime value monitor vs purification-by-enumeration reference + Hermitian/PSD/diag/trace/call-form monitors + ATen float sanitizer",
+        "Runs rho (matrix, paired-vector and scalar call forms), probability and normalization of the real DensityMatrix on "
+        "generated models over all 64 architectures (1..4)^3 with parameter scales up to 30 and compares every entry with "
+        "sum_a psi(.,a)psi(.,a)^dagger obtained by enumerating hidden and auxiliary units, plus direct Hermitian / PSD / "
+        "diagonal / trace monitors. Held on the executions produced, not a proof.",
+        "Trusted: numpy complex128 arithmetic, eigvalsh. Softplus threshold approximation budgeted (3e-9 per unit).",
+        "DESIGN.md 3 C02",
+    ),
+    "C04": (
+        "runtime contracts (postconditions vs dense Kronecker product) on the four rotation functions, incl. calls made by the library itself; dictionary eigen-equation and physical-state monitors",
+        "Record-and-check postconditions sit on rotate_psi / rotate_rho / rotate_psi_inner_prod / rotate_rho_probs of the "
+        "imported module and compare every call (model path, explicit psi=/rho= path, include_extras, unitaries=) with "
+        "numpy kron; the workload enumerates all 3^n strings for n<=4, samples n=5..7, adds Haar-random user unitaries, "
+        "Hermitian PSD/indefinite/real-symmetric rho, and a library-driven stage (gradient, KL, NLL). Exhaustive over the "
+        "strings for n<=4, sampling elsewhere; not a proof.",
+        "Trusted: numpy kron/matmul complex128. Non-Hermitian explicit rho is outside the verdict-bearing class.",
+        "DESIGN.md 3 C04",
+    ),
+    "C15": (
+        "icontract postconditions (recording) on every public function of utils/cplx.py vs numpy complex128, synthetic generator + library-driven scenarios; error-path monitors",
+        "Every public cplx function carries an icontract.ensure postcondition comparing its result with numpy complex128 on "
+        "the decoded operands (tolerance 50 eps sum|terms|, dtype-aware); evaluated on shapes x value classes "
+        "(zero, +-1, tiny, huge, real, imaginary, mixed scale, float32 cplx.I) and on the shapes the library produces in "
+        "rotations, gradients, observables and a short fit; unsupported shapes / aliasing out= must raise.",
+        "Trusted: numpy complex arithmetic as the definition. Overlapping-view out= buffers are not demanded to be rejected.",
+        "DESIGN.md 3 C15",
+    ),
 }
 
 NOT_YET = "check not built yet in this round (work in progress); will be claimed once its monitor exists"
